@@ -885,7 +885,9 @@ func getJsTag(tag string) string {
 }
 
 func needsSpace(c byte) bool {
-	return (c >= 'a' && c <= 'z') || (c >= 'A' && c <= 'Z') || (c >= '0' && c <= '9') || c == '_' || c == '$' || c == '\b'
+	// Bytes >= 0x80 belong to multi-byte UTF-8 characters, which only occur in
+	// identifiers outside of string literals (e.g. labels with non-ASCII names).
+	return (c >= 'a' && c <= 'z') || (c >= 'A' && c <= 'Z') || (c >= '0' && c <= '9') || c == '_' || c == '$' || c == '\b' || c >= 0x80
 }
 
 func removeWhitespace(b []byte, minify bool) []byte {
